@@ -58,8 +58,18 @@ def run(prop, tier, replay=None):
         tlc_must_pass(r3, "ShellCarrier GEN interplay")
         inter = [json.loads(t) for t in sorted({f[0] for f in r3.printed("REPLAY")})]
         inter = [v for v in inter if not any(t["detached"] for t in v["hist"][:2])]      # the first two must leave their state behind
-        ninter = 400 if tier == "quick" else len(inter)
+        ninter = 250 if tier == "quick" else len(inter)
         inter = inter if len(inter) <= ninter else rnd.sample(inter, ninter)
+        # persist family: option on / one representative operation / look -- complete in both tiers
+        cfg4 = os.path.join(work, "GEN_persist.cfg")
+        with open(cfg4, "w") as f:
+            f.write("SPECIFICATION Spec\nCONSTANTS\n  MaxTests = 3\n  MaxOps = 1\n  Family = \"persist\"\nINVARIANTS CarriesOver Emit\nCHECK_DEADLOCK FALSE\n")
+        r4 = tlc("MC_ShellCarrier", cfg4, work, workers=min(NCPU, 8), timeout=3000, line_filter=lambda l: l.startswith('<<"REPLAY"') or l.startswith("Error"))
+        tlc_must_pass(r4, "ShellCarrier GEN persist")
+        pers = [json.loads(t) for t in sorted({f[0] for f in r4.printed("REPLAY")})]
+        pers = [v for v in pers if not any(t["detached"] for t in v["hist"]) and len(v["hist"][0]["ops"]) == 1 and len(v["hist"][1]["ops"]) == 1]
+        cov["histories_persist_family"] = len(pers)
+        inter = inter + pers
         cov["histories_interplay_family"] = len(inter)
         vectors = short + longs + inter
         for i, v in enumerate(vectors):
